@@ -26,6 +26,26 @@ HISTORIES around one generator, each compared with the Lean model and the Lean s
             hop: each call is compared with the Lean model/spec of that call taken alone (the model is a pure
             function of the arguments).
   big       size / hop around 63..65, 127..129, 1023..1025, 4095..4097 with short and long inputs.
+  call      the CALL as written (Lean: bind / blocksApply / streamBlocksApply / blocksCall, spec blocksCallSpec): every
+            shape (each of seq / size / hop / padval positional, keyword or omitted; calls Python refuses), through
+            blocks(...) and Stream.blocks(*args, **kwargs); every SPELLING of size and hop (int, bool, int subclass,
+            float and Fraction whole / not whole, 0, negative, None, str, 2^63-1, 2^63, 10^30): which error, WHEN (at
+            the first next(), nothing pulled; or TypeError instead of the padded block after the complete blocks), the
+            blocks before it; hop <= 0 (block 0, then the source is read to its end without a block: observed with
+            sources that fail after many items instead of endless ones); size 0; every SOURCE KIND (list, tuple, deque,
+            dict keys, range, str; generator, iter(list), Stream, Stream subclass, thub, map object), ending or failing
+            at every offset; how the run ENDS (clean stop / the source's exception object / the code's error), two
+            further next() afterwards (StopIteration), the same call a second time on the same source object (a
+            container gives its blocks again, an iterator is used up, a map object goes on after its function raised);
+            the yielded object (one and the same deque, maxlen = size; Stream.blocks returns a Stream).
+  zcall     zero_pad as written: every subset of left / right / zero positional, keyword or omitted; spellings of left /
+            right (negative: no pads; float / Fraction / None / str: TypeError, for `left` before anything, for `right`
+            after the whole input); huge counts with a capped read.
+  mutg      the caller keeps every block (all are the same deque) and CHANGES ITS LENGTH between two yields (append,
+            appendleft, pop, popleft, clear, extend, del, insert) or makes operations that FAIL (IndexError: pop from
+            an empty deque, index out of range, insert into a full deque; the failed operation leaves no trace and the
+            history goes on): blocks of blocksMut with applyOps, which operations failed (bloopMutFails), spec
+            mutSpecG (hop <= size) / the plain blocks (hop >= size: theorem blocks_mut_ops_hop_ge_size).
 
 Reproducibility.  `conc` and `hist` cases always run in a fresh fork of a child that was forked before this
 process made its first call into the library; a plain case that disagrees is run again alone that way: if it
@@ -50,34 +70,52 @@ RULE = ("exhaustive (len x size x hop x route) grid on finished inputs, exhausti
         "grid of observing sources that end / fail at every position, small exhaustive grids of caller-edit and "
         "live-source histories, random larger cases of every entry incl. Stream-subclass / thub / int-like-parameter "
         "routes, interleaved generators, call histories in a fresh process, long runs (thousands of blocks) and "
-        "sizes/hops around powers of two up to 4097; a case is non-trivial "
+        "sizes/hops around powers of two up to 4097; the call layer: every call shape (positional / keyword / omitted per "
+        "parameter, refused calls) x blocks / Stream.blocks / zero_pad, every pair of spellings of size x hop (int, bool, "
+        "int subclass, whole and non-whole float / Fraction, 0, negative, None, str, around 2^63) and of left x right, "
+        "every source kind x hop/size relation x every input length up to size+2*hop+1 with a second pass over the same "
+        "source, grids of length-changing / failing caller operations; a case is non-trivial "
         "when the impl yields at least one block (or zero_pad has non-empty output); distinct = distinct JSON case")
 TRUSTED = [
     "hand-written Lean model ALV/Model/C08.lean + C08Hist.lean of lazy_misc.blocks/zero_pad (modelled, not verified: "
     "deque(maxlen), generator protocol: a source exception passes through the generator frame unchanged)",
     "independence of a call from earlier / concurrent calls holds for the model by construction (pure functions of "
     "the arguments); the `conc` cases check it on the real code",
-    "caller edits are modelled for length-preserving operations only (item assignment, rotate, reverse): the "
-    "docstring speaks of changing the returned CONTENTS; append/pop on the yielded deque are outside the property",
+    "caller operations on the yielded deque: collections.deque(maxlen) semantics of append / appendleft / pop / popleft / "
+    "clear / extend / del / insert / item assignment / rotate / reverse incl. their IndexError cases are modelled "
+    "(DqOp.apply), not verified; for hop < size and length-changing operations the spec mutSpecG is tied by the run, its "
+    "equality with the model is PENDING (proved: hop >= size for arbitrary operations, all hops for length-preserving ones)",
+    "Python's argument binding (ALV.C08.bind), the numeric tower as far as blocks uses it (int/bool exact in Int, float / "
+    "Fraction in exact Rat: the generator draws only floats whose arithmetic is exact; xrange / deque(maxlen) accept only "
+    "objects with __index__; Py_ssize_t limit 2^63-1) are modelled, not verified",
+    "the generator protocol after the end (further next() give StopIteration), the identity of the yielded deque and the "
+    "type of the result (generator / Stream) are checked on the real code as properties of the observation, not modelled",
     "Stream subclasses: `Stream.blocks(s)` is modelled as `blocks(iter(s))`; the sequence iter(s) yields for a "
     "given history is computed by the harness from the no-read-ahead clause (block k after k*hop+size items)",
 ]
 ASSUMPTIONS = [
-    "size >= 1 and hop >= 1 (the property's quantifier); size=None / hop=0 are outside it",
-    "size/hop of type int, bool or an int subclass are inside the quantifier; an int-valued float / Fraction hop is "
-    "outside (xrange(idx, size) refuses it when a padded block is due): the check then only demands that every "
-    "complete block is right and that the refusal is a TypeError",
+    "the property's quantifier is size >= 1 and hop >= 1 of an int spelling; what the code does outside it (size 0 / None / "
+    "negative / float / huge, hop <= 0 / float / Fraction / not a number) is modelled exactly and tied too (entry `call`)",
+    "hop = inf / nan, and floats whose arithmetic rounds (e.g. 0.1), are outside the model and the generator",
+    "2^6 < size < 2^63 with a padded block due is excluded from model and generator (the code would append ~size pads); "
+    "hop <= 0 on an ENDLESS source never returns (theorem call_hop_nonpos: no second block however long the source): the "
+    "generator uses sources that fail after many items instead",
 ]
 
 MANIFEST = {
     "text": "Lean 4 theorems about an executable, code-shaped model of blocks / zero_pad (both loops, idx bookkeeping, padded "
             "tail) for all lengths / sizes / hops / pad values / item types, and about the generator's histories: every "
             "prefix of the input (sources that fail or end anywhere), the number of items pulled when each block is handed "
-            "out, a caller that edits the yielded deque in place, live sources that follow the caller; tied to /repo by a "
-            "differential run (impl vs model vs spec) on every check",
+            "out, a caller that edits the yielded deque in place (length-preserving: all hops; any operation incl. failing "
+            "ones: hop >= size), live sources that follow the caller; and about the CALL: defaults (hop=None is size, padval "
+            "omitted is 0.), positional = keyword binding, Stream.blocks(*a, **k) = blocks(iter(s), *a, **k), every spelling "
+            "of size / hop / left / right (which error and when: refused sizes before anything is pulled, a whole float hop "
+            "= the int hop up to a TypeError in place of a padded block that follows a complete one, hop <= 0, size 0); tied "
+            "to /repo by a differential run (impl vs model vs spec) on every check",
     "note": "deque(maxlen), the generator protocol (a source exception passes through the frame unchanged) and Stream.blocks = "
-            "blocks(iter(s)) are modelled, not verified; caller edits are modelled for length-preserving operations only; an "
-            "int-valued float / Fraction hop is outside the quantifier (only 'right blocks or TypeError' is demanded)",
+            "blocks(iter(s)), Python's argument binding and deque operations are modelled, not verified; PENDING (tied by the "
+            "run only): non-whole float / Fraction hops, length-changing caller operations when hop < size; inf / nan hops "
+            "are outside",
     "technique": "Lean 4 machine-checked proof over an executable model + differential correspondence with observing / failing "
                  "sources, caller-edit and live-source histories, Stream subclasses overriding __iter__, interleaved generators "
                  "and call histories run in pristine forked processes (state-between-calls is reported with the explicit history)",
